@@ -331,6 +331,87 @@ def oracle(sc, log):
 
 # ---------------------------------------------------------------------------
 
+def write_dump(path, version, scale, rng):
+    """a Phobos-style JSON dump holding the tables of cl.CountingDataHandler; the metadata rows in random order"""
+    dh = cl.CountingDataHandler(version, scale)
+
+    def put(miner, name, obj):
+        d = os.path.join(path, miner)
+        os.makedirs(d, exist_ok=True)
+        with open(os.path.join(d, name + '.json'), 'w') as f:
+            json.dump(obj, f)
+    put('fsd_binary', 'types', {str(r['typeID']): r for r in dh.get_evetypes()})
+    put('fsd_binary', 'groups', {str(r['groupID']): r for r in dh.get_evegroups()})
+    put('fsd_binary', 'dogmaattributes', {str(r['attributeID']): r for r in dh.get_dgmattribs()})
+    put('fsd_binary', 'dogmaeffects', {str(r['effectID']): r for r in dh.get_dgmeffects()})
+    td = {}
+    for r in dh.get_dgmtypeattribs():
+        td.setdefault(str(r['typeID']), {}).setdefault('dogmaAttributes', []).append(
+            {'attributeID': r['attributeID'], 'value': r['value']})
+    for r in dh.get_dgmtypeeffects():
+        td.setdefault(str(r['typeID']), {}).setdefault('dogmaEffects', []).append(
+            {'effectID': r['effectID'], 'isDefault': r['isDefault']})
+    put('fsd_binary', 'typedogma', td)
+    put('fsd_binary', 'requiredskillsfortypes', {})
+    put('fsd_lite', 'dbuffcollections', {str(r['buffID']): {k: v for k, v in r.items() if k != 'buffID'}
+                                         for r in dh.get_dbuffcollections()})
+    put('fsd_lite', 'fighterabilitiesbytype', {})
+    meta = [{'field_name': 'dump_time', 'field_value': 1500000000},
+            {'field_name': 'client_build', 'field_value': version},
+            {'field_name': 'server', 'field_value': 'tq'}]
+    if version is None:
+        meta = [m for m in meta if m['field_name'] != 'client_build']
+    rng.shuffle(meta)
+    put('phobos', 'metadata', meta)
+    return [m['field_name'] for m in meta]
+
+
+def dump_oracle(wd, rng, n):
+    """the real JSON data handler on generated dumps: the data version is the client build the dump's metadata
+    states, wherever it stands in the list; adding twice with unchanged data builds once. -> None | why"""
+    import shutil
+    import eos
+    from eos.cache_handler import JsonCacheHandler
+    from eos.data_handler import JsonDataHandler
+    from eos.source import SourceManager
+
+    class Counting(JsonDataHandler):
+        calls = 0
+
+        def get_evetypes(self):
+            Counting.calls += 1
+            return JsonDataHandler.get_evetypes(self)
+    for k in range(n):
+        dump = os.path.join(wd, 'dump')
+        cache = os.path.join(wd, 'dump_cache.json.bz2')
+        shutil.rmtree(dump, ignore_errors=True)
+        if os.path.exists(cache):
+            os.remove(cache)
+        version = rng.choice([1795357, 1800000 + k, '1795357', None])
+        order = write_dump(dump, version, 1 + k % 3, rng)
+        cl.reset_source_manager()
+        try:
+            got = Counting(dump).get_version()
+            if got != version:
+                return 'metadata %r: get_version() is %r, the dump says client_build %r' % (order, got, version)
+            Counting.calls = 0
+            SourceManager.add('a', Counting(dump), JsonCacheHandler(cache))
+            first = Counting.calls
+            SourceManager.add('b', Counting(dump), JsonCacheHandler(cache))
+            second = Counting.calls - first
+            fp = JsonCacheHandler(cache).get_fingerprint()
+            want = '%s_%s' % (version, eos.__version__)
+            if first == 0:
+                return 'metadata %r: first add did not build' % (order,)
+            if version is not None and second != 0:
+                return 'metadata %r: second add with unchanged data (version %r) rebuilt the cache' % (order, version)
+            if fp != want:
+                return 'metadata %r: persisted fingerprint %r, current is %r' % (order, fp, want)
+        finally:
+            cl.reset_source_manager()
+    return None
+
+
 def run(rep):
     rng = random.Random(rep.seed)
     per = 8 if rep.tier == 'quick' else 150
@@ -340,6 +421,9 @@ def run(rep):
     wd = cl.workdir('C17')
     scs = common.load_corpus('C17') + gen_scenarios(rng, per)
     res = [run_impl(sc, wd) for sc in scs]
+    ndump = 12 if rep.tier == 'quick' else 300
+    why_dump = dump_oracle(wd, random.Random(rep.seed + 3), ndump)
+    rep.cov['json_dumps_through_real_data_handler'] = ndump
     cl.cleanup('C17')
     rep.cov['evaluations'] = sum(len(sc['ops']) for sc in scs)
     rep.cov['exhaustive'] = True
@@ -379,6 +463,8 @@ def run(rep):
     except common.TieBroken as e:
         rep.broken.append('%s: %s' % (e.what, e.detail))
     finish(rep, scs, res, disagreements)
+    if why_dump and not rep.violations:
+        rep.violation({'kind': 'dump', 'fails': why_dump, 'seed': rep.seed + 3, 'n': ndump})
 
 
 def finish(rep, scs, res, disagreements):
@@ -405,8 +491,18 @@ def finish(rep, scs, res, disagreements):
                   found_input=False)
 
 
+def replay_dump(r):
+    wd = cl.workdir('C17')
+    why = dump_oracle(wd, random.Random(r['seed']), r['n'])
+    cl.cleanup('C17')
+    print('oracle:', why or 'property holds on these dumps')
+    return 1 if why else 0
+
+
 def replay(path):
     r = json.load(open(path))
+    if r.get('kind') == 'dump':
+        return replay_dump(r)
     if 'case' not in r:
         print(json.dumps(r, indent=1)[:3000])
         return 1
